@@ -21,7 +21,7 @@ PROPERTY = "C34"
 LEVEL = "exploration"
 RULE = (
     "op programs (<=40 ops) in one Session over 4 committed rows: get (populate_existing, identity_token), select (all / filtered / by pk list; populate_existing, "
-    "yield_per, identity_token execution option), merge of a transient or detached copy (load True/False), refresh, expire (whole object / one attribute), expire_all, expunge, add back, "
+    "yield_per, identity_token execution option), merge of a transient or detached copy (load True/False), merge(load=True) of an object loaded under a non-default identity token and then expunged (identity absent / present in the session), refresh, expire (whole object / one attribute), expire_all, expunge, add back, "
     "primary key change + flush, delete + flush, re-insert of a deleted pk, delete + insert of one pk in a single flush, modify without flush, commit, dropping the harness' strong reference (+gc). "
     "Non-trivial: a pk switch, an expunge/re-add, or a merge of a copy of an identity already present happens before a later query returns that row; "
     "distinct = canonical JSON of the program"
@@ -267,6 +267,69 @@ def check(case, ctx):
                     model[i].x = rows[pk]
                     model[i].dirty = False
                 del got, copy
+            elif op == "merge_token":
+                # an object loaded under a non-default identity token, detached, then merged back with load=True
+                sess.flush()
+                flush_model()
+                live = sorted(rows)
+                if not live:
+                    continue
+                pk = live[a % len(live)]
+                tok = ["t1", "t2"][c % 2]
+                key = (pk, tok)
+                via_select = b % 2 == 0
+                # 1. obtain the source under the token (get or select with the execution option) and detach it
+                if via_select:
+                    src = sess.execute(select(Thing).where(Thing.id == pk).execution_options(identity_token=tok)).scalars().one()
+                else:
+                    src = sess.get(Thing, pk, identity_token=tok)
+                si = receive(src, key, "merge_token-load", step)
+                model[si].expired = False
+                if model[si].dirty:
+                    sess.flush()
+                    flush_model()
+                sess.expunge(src)
+                del idmap[key]
+                model[si].st = "detached"
+                present = b % 3 == 0
+                if present:
+                    # control: the session holds that identity again before the merge
+                    held = sess.get(Thing, pk, identity_token=tok)
+                    hi = receive(held, key, "merge_token-reload", step)
+                    if held is src:
+                        raise Violation("C34/merge_token/expunged-object-returned", f"step {step}: get returned the expunged object")
+                    del held
+                    classes.add("merge-token-present")
+                else:
+                    classes.add("merge-token-absent")
+                armed.add(key)
+                # 2. merge: the result must live under the SOURCE's full key (class, pk, token)
+                merged = sess.merge(src, load=True)
+                if merged is src:
+                    raise Violation("C34/merge_token/returned-argument", f"step {step}: merge returned the detached source")
+                mk = inspect(merged).key
+                if mk is None or (mk[1][0], mk[2]) != key:
+                    raise Violation("C34/merge/identity-token-lost", f"step {step}: merge(load=True) of a detached object with identity key {inspect(src).key} produced an object keyed {mk}",
+                                    observed=repr(mk), expected=repr(inspect(src).key))
+                mi = receive(merged, key, "merge_token", step)
+                if present and mi != hi:
+                    raise Violation("C34/merge_token/second-object-for-key", f"step {step}: merge did not return the object already held for {key}")
+                model[mi].expired = False
+                model[mi].dirty = True  # attribute copy marks it modified
+                model[mi].x = rows[pk]
+                # 3. get under the token: same object, zero SQL; a query under the token returns it too
+                cap.clear()
+                again = sess.get(Thing, pk, identity_token=tok)
+                n = len(cap.rows)
+                if again is not merged:
+                    raise Violation("C34/merge_token/get-after-merge", f"step {step}: get({pk}, identity_token={tok!r}) after merge returned another object")
+                if n != 0:
+                    raise Violation("C34/get/sql-for-present-identity", f"step {step}: get({pk}, identity_token={tok!r}) right after merge emitted {n} statement(s)", observed=n, expected=0)
+                q = sess.execute(select(Thing).where(Thing.id == pk).execution_options(identity_token=tok)).scalars().all()
+                flush_model()
+                if len(q) != 1 or q[0] is not merged:
+                    raise Violation("C34/merge_token/select-after-merge", f"step {step}: select under identity_token={tok!r} did not return the merged object")
+                del src, merged, again, q
             elif op in ("refresh", "expire", "expire_attr", "modify", "modify_flush", "pk_change", "delete", "row_switch", "expunge", "drop"):
                 if op in ("pk_change", "delete", "row_switch", "modify", "modify_flush"):
                     i = pick(a, lambda m: m.st == "persistent" and not twin(m))
@@ -418,7 +481,7 @@ def check(case, ctx):
         eng.dispose()
 
 
-_OPS = (["get"] * 6 + ["select"] * 6 + ["merge"] * 4 + ["refresh", "expire", "expire", "expire_attr", "expire_attr", "modify", "modify_flush", "pk_change", "pk_change", "delete", "expunge", "expunge",
+_OPS = (["get"] * 6 + ["select"] * 6 + ["merge"] * 4 + ["merge_token"] * 3 + ["refresh", "expire", "expire", "expire_attr", "expire_attr", "modify", "modify_flush", "pk_change", "pk_change", "delete", "expunge", "expunge",
         "add_back", "add_back", "add_back", "reinsert", "row_switch", "drop", "expire_all", "commit"])
 
 
